@@ -12,12 +12,12 @@ NA = {
 }
 CHECKS = {
  "C07": ("E1 api-sim","exploration","seeded histories of register-API calls against a reference register file, all 33 registers compared after every call; wrong-width views, EIP and oversized values as injected faults","5 C07","seeded history simulation against a reference register file"),
- "C08": ("E1 api-sim","exploration","seeded histories of API and guest accesses interleaved on one byte store, with edge/extreme addresses and lengths as injected faults; byte-map model plus a flat address->byte shadow that also records the initial contents of every fresh area, all areas compared after every operation","5 C08","seeded history simulation with fault injection against a byte-map model"),
+ "C08": ("E1 api-sim","exploration","seeded histories of API and guest accesses interleaved on one byte store, with edge/extreme addresses and lengths as injected faults; byte-map model plus a flat address->byte shadow that also records the initial contents of every fresh area, rights taken away and given back, empty accesses far from mapped memory, all areas compared after every operation","5 C08","seeded history simulation with fault injection against a byte-map model"),
  "C09": ("E1 api-sim","fault_enumeration","all 8 permission masks x all access paths (API read/write, guest load/store/RMW, implicit stack store/load, fetch, fetch of an instruction straddling into a neighbour area, constructor code area) enumerated in every run, permission revoked by mem_prot right before the access; values sampled","5 C09","permission-revocation fault enumeration over access paths"),
  "C10": ("E1 api-sim + E4 load-sim","exploration","seeded histories of area creation/anywhere/stack/program-start/resize/prot with requests placed relative to existing areas; interval-set model; bounded liveness of the retry loops through the fuel seam; plus ELF load as a creation path: images whose PT_LOAD headers are moved into each other must never leave intersecting areas","5 C10","seeded history simulation against an interval-set model, fuel-bounded liveness"),
  "C11": ("E2 run-sim","exploration","three drivers of one scenario (one execute(), step loop, execute bursts pre-empted by limits) must agree; per-step oracle on count/return/RIP/finished; stepping after finish/limit must fail and change nothing","5 C11","schedule-equivalence simulation (step vs execute vs pre-empted bursts) with scripted hooks"),
- "C12": ("E2 run-sim","exploration","hook-protocol automaton over programs with scripted hooks (unhandled/handled/stop/error/mutate/re-entrant register), registration attempted after failed steps, stops, finish, limit and from inside hooks; the host stops the machine between steps; hooks registered on a set-aside clone must never run on the machine under test","5 C12","multi-party callback-protocol simulation with failing/stopping/re-entrant hooks"),
- "C18": ("E2 run-sim","exploration","independent tracer (iced decode + observed RIP) against structured trace and call stack after every step, rendered trace()/call_stack() text checked against the structured view, renderers called on every error path, unbalanced returns, deep recursion, redirected indirect jumps, calls to stubs that jump through memory and faulting endings generated on purpose","5 C18","seeded program simulation with an independent control-flow tracer"),
+ "C12": ("E2 run-sim","exploration","hook-protocol automaton over programs with scripted hooks (unhandled/handled/stop/error/mutate/re-entrant register), registration attempted after failed steps, stops, finish, limit and from inside hooks; the host stops the machine between steps; traps nobody registered a hook for; hooks registered on a set-aside clone must never run on the machine under test","5 C12","multi-party callback-protocol simulation with failing/stopping/re-entrant hooks"),
+ "C18": ("E2 run-sim","exploration","independent tracer (iced decode + observed RIP) against structured trace and call stack after every step, rendered trace()/call_stack() text checked against the structured view, renderers called on every error path, unbalanced returns, deep recursion, redirected indirect jumps, calls to stubs that jump through memory, loops that push the trace beyond 4096 entries and faulting endings generated on purpose","5 C18","seeded program simulation with an independent control-flow tracer"),
  "C20": ("E2 run-sim + E5 insn-sim + E3 sys-sim + E4 load-sim","exploration","two machines differing only in the RNG-seam stream (and a second process with different HashMap keys via the audit) compared per step and at the end, a third of them loaded from ELF images with aliased symbols (rendered texts compared); plus every catalogue form x operand shape stepped on two machines that differ only in the registers the instruction does not mention; guest programs against the built-in brk/pipe handlers on two machines (and with other descriptor numbers handed out); process start (image + argv/envp) on two machines","5 C20","paired-machine determinism simulation varying RNG seam, symbol aliasing and process"),
 }
 import os
